@@ -13,7 +13,7 @@ from vk.props.c09 import structural
 ID = 'C11'
 RULE = ('Hypothesis-generated abstract netlists rendered (i) as structural Verilog over each built-in library (hand-written cell/pin tables): scalar '
         'and bus ports with ascending/descending ranges, 1-bit buses, declared/implicit/escaped wire names, wire buses, named pin connections in '
-        'random order, unconnected and constant pins, plain and scan flip-flops, continuous assigns (single, concatenations), random statement '
+        'random order, unconnected and constant pins, plain and scan flip-flops, physical-only cells (antenna, filler, decap, header) in between, continuous assigns (single, concatenations), random statement '
         'order, whitespace, three comment kinds and attributes, both branchforks settings; (ii) as ISCAS bench text. Oracle: own evaluator on the '
         'abstract netlist: io_nodes names in header order with bus bits in declared range order; after resolve_tlib_cells the truth table '
         '(exhaustive up to 10 sources, else 256 generated patterns) at every output and flip-flop equals the reference; branchforks only adds '
@@ -181,6 +181,7 @@ def prop(case):
     if has_assign: labels.append('assign')
     if complex_cell: labels.append('complex_cell')
     if truth['skipped']: labels.append('scan_ff')
+    if truth.get('nphys'): labels.append('physical_only_cells')
     if second is not None: labels.append('two_modules_in_one_text')
     if '\\' in text: labels.append('escaped_names')
     return Obs(((asc and desc) or has_assign) and complex_cell, labels, checks=2 * sims * (len(nl['po']) + nst))
